@@ -20,6 +20,7 @@ import (
 	"crypto/tls"
 	"context"
 	"errors"
+	"fmt"
 	"io"
 	"log"
 	"net"
@@ -30,6 +31,7 @@ import (
 	"testing"
 	"time"
 
+	sasl "github.com/emersion/go-sasl"
 	smtp "github.com/emersion/go-smtp"
 )
 
@@ -889,3 +891,234 @@ func scenarioListenerCloseError(t *testing.T, mode string, shutdown bool) {
 func TestScenarioListenerCloseErrorClose(t *testing.T)       { scenarioListenerCloseError(t, "once", false) }
 func TestScenarioListenerCloseErrorCloseAlways(t *testing.T) { scenarioListenerCloseError(t, "always", false) }
 func TestScenarioListenerCloseErrorShutdown(t *testing.T)    { scenarioListenerCloseError(t, "once", true) }
+
+
+// ---- several connections on one server (every other case kind serves one connection per server) ----
+
+type mcBackend struct {
+	mu   sync.Mutex
+	got  map[string]string // sender -> message read
+	errs map[string]error
+	mech []string
+}
+
+type mcSession struct {
+	b    *mcBackend
+	from string
+}
+
+func (b *mcBackend) NewSession(*smtp.Conn) (smtp.Session, error) { return &mcSession{b: b}, nil }
+func (s *mcSession) Reset()                                      {}
+func (s *mcSession) Logout() error                               { return nil }
+func (s *mcSession) Mail(from string, _ *smtp.MailOptions) error { s.from = from; return nil }
+func (s *mcSession) Rcpt(string, *smtp.RcptOptions) error        { return nil }
+func (s *mcSession) Data(r io.Reader) error {
+	data, err := io.ReadAll(r)
+	s.b.mu.Lock()
+	s.b.got[s.from] = string(data)
+	s.b.errs[s.from] = err
+	s.b.mu.Unlock()
+	return err
+}
+
+type mcClient struct {
+	t *testing.T
+	c net.Conn
+	r *bufio.Reader
+}
+
+func mcDial(t *testing.T, addr string) *mcClient {
+	c, err := net.Dial("tcp", addr)
+	if err != nil {
+		t.Fatal(err)
+	}
+	cl := &mcClient{t: t, c: c, r: bufio.NewReader(c)}
+	cl.expect("220")
+	return cl
+}
+
+func (cl *mcClient) send(s string) {
+	cl.c.SetWriteDeadline(time.Now().Add(scWatchdog))
+	if _, err := io.WriteString(cl.c, s); err != nil {
+		cl.t.Fatalf("write %q: %v", s, err)
+	}
+}
+
+func (cl *mcClient) expect(code string) string {
+	cl.t.Helper()
+	for {
+		cl.c.SetReadDeadline(time.Now().Add(scWatchdog))
+		line, err := cl.r.ReadString('\n')
+		if err != nil {
+			cl.t.Fatalf("expected %s, got error %v", code, err)
+		}
+		if len(line) >= 4 && line[3] == ' ' {
+			if !strings.HasPrefix(line, code) {
+				cl.t.Fatalf("expected %s, got %q", code, line)
+			}
+			return line
+		}
+	}
+}
+
+// a message in transit on one connection is not disturbed by other connections of the same server that come
+// and go (earlier connections ended by QUIT and by the peer, later ones greeted while the DATA is half-way)
+func TestScenarioC01_BodyWhileOtherConnectionsComeAndGo(t *testing.T) {
+	be := &mcBackend{got: map[string]string{}, errs: map[string]error{}}
+	s := smtp.NewServer(be)
+	s.Domain = "verif"
+	s.ErrorLog = log.New(io.Discard, "", 0)
+	ln, err := net.Listen("tcp", "127.0.0.1:0")
+	if err != nil {
+		t.Fatal(err)
+	}
+	go s.Serve(ln)
+	defer s.Close()
+	addr := ln.Addr().String()
+	body := func(tag string) string {
+		var sb strings.Builder
+		for i := 0; i < 40; i++ {
+			fmt.Fprintf(&sb, "%s line %d of the message, with a dot line after it\r\n..%s\r\n", tag, i, tag)
+		}
+		return sb.String()
+	}
+	unstuffed := func(b string) string { return strings.ReplaceAll(b, "\r\n..", "\r\n.") }
+	for round := 0; round < 3; round++ {
+		// earlier connections: one ends with QUIT, one is dropped by the peer, one sends a whole message
+		a := mcDial(t, addr)
+		a.send("EHLO a\r\nQUIT\r\n")
+		a.expect("250")
+		a.expect("221")
+		a.c.Close()
+		d := mcDial(t, addr)
+		d.send("EHLO d\r\n")
+		d.expect("250")
+		d.c.Close()
+		time.Sleep(20 * time.Millisecond)
+		// B is half-way through its message when C and D are accepted, talk and leave
+		b := mcDial(t, addr)
+		from := fmt.Sprintf("b%d@x", round)
+		b.send("EHLO b\r\nMAIL FROM:<" + from + ">\r\nRCPT TO:<r@x>\r\nDATA\r\n")
+		b.expect("250")
+		b.expect("250")
+		b.expect("250")
+		b.expect("354")
+		msg := body("B")
+		b.send(msg[:len(msg)/2])
+		c := mcDial(t, addr)
+		cfrom := fmt.Sprintf("c%d@x", round)
+		cmsg := body("C")
+		c.send("EHLO c\r\nMAIL FROM:<" + cfrom + ">\r\nRCPT TO:<r@x>\r\nDATA\r\n" + cmsg + ".\r\nQUIT\r\n")
+		c.expect("250")
+		c.expect("250")
+		c.expect("250")
+		c.expect("354")
+		c.expect("250")
+		c.expect("221")
+		e := mcDial(t, addr)
+		e.send("EHLO e\r\nNOOP\r\n")
+		e.expect("250")
+		e.expect("250")
+		b.send(msg[len(msg)/2:] + ".\r\nQUIT\r\n")
+		b.expect("250")
+		b.expect("221")
+		e.send("QUIT\r\n")
+		e.expect("221")
+		be.mu.Lock()
+		gotB, errB, gotC, errC := be.got[from], be.errs[from], be.got[cfrom], be.errs[cfrom]
+		be.mu.Unlock()
+		if gotB != unstuffed(msg) || errB != nil {
+			t.Fatalf("round %d: the backend read %d octets (err %v) of connection B's message, want its %d octets: %q...", round, len(gotB), errB, len(unstuffed(msg)), truncate(gotB, 120))
+		}
+		if gotC != unstuffed(cmsg) || errC != nil {
+			t.Fatalf("round %d: the backend read %d octets (err %v) of connection C's message, want %d", round, len(gotC), errC, len(unstuffed(cmsg)))
+		}
+		b.c.Close()
+		c.c.Close()
+		e.c.Close()
+	}
+}
+
+func truncate(s string, n int) string {
+	if len(s) > n {
+		return s[:n]
+	}
+	return s
+}
+
+// EHLO replies of connections greeted AT THE SAME TIME on one server (plaintext, with and without the
+// permission to authenticate in the clear) each list exactly what holds for their own connection
+func TestScenarioC12_ConcurrentGreetings(t *testing.T) {
+	for _, insecure := range []bool{true, false} {
+		be := &mcAuthBackend{mcBackend: mcBackend{got: map[string]string{}, errs: map[string]error{}}}
+		s := smtp.NewServer(be)
+		s.Domain = "verif"
+		s.ErrorLog = log.New(io.Discard, "", 0)
+		s.AllowInsecureAuth = insecure
+		s.EnableSMTPUTF8, s.EnableDSN, s.MaxRecipients = true, true, 7
+		ln, err := net.Listen("tcp", "127.0.0.1:0")
+		if err != nil {
+			t.Fatal(err)
+		}
+		go s.Serve(ln)
+		addr := ln.Addr().String()
+		want := ""
+		var mu sync.Mutex
+		var wg sync.WaitGroup
+		for i := 0; i < 24; i++ {
+			wg.Add(1)
+			go func(i int) {
+				defer wg.Done()
+				c, err := net.Dial("tcp", addr)
+				if err != nil {
+					t.Error(err)
+					return
+				}
+				defer c.Close()
+				r := bufio.NewReader(c)
+				c.SetDeadline(time.Now().Add(scWatchdog))
+				r.ReadString('\n')
+				for k := 0; k < 3; k++ {
+					fmt.Fprintf(c, "EHLO same.example\r\n")
+					reply := ""
+					for {
+						line, err := r.ReadString('\n')
+						if err != nil {
+							t.Errorf("connection %d: %v", i, err)
+							return
+						}
+						reply += line
+						if len(line) >= 4 && line[3] == ' ' {
+							break
+						}
+					}
+					mu.Lock()
+					if want == "" {
+						want = reply
+					} else if reply != want {
+						t.Errorf("insecure=%v: connection %d got the EHLO reply %q, another connection of the same server got %q", insecure, i, reply, want)
+					}
+					mu.Unlock()
+				}
+			}(i)
+		}
+		wg.Wait()
+		hasAuth := strings.Contains(want, "AUTH PLAIN")
+		if hasAuth != insecure {
+			t.Errorf("insecure=%v: EHLO reply %q", insecure, want)
+		}
+		s.Close()
+	}
+}
+
+type mcAuthBackend struct{ mcBackend }
+
+type mcAuthSession struct{ mcSession }
+
+func (b *mcAuthBackend) NewSession(*smtp.Conn) (smtp.Session, error) {
+	return &mcAuthSession{mcSession{b: &b.mcBackend}}, nil
+}
+func (s *mcAuthSession) AuthMechanisms() []string { return []string{"PLAIN"} }
+func (s *mcAuthSession) Auth(mech string) (sasl.Server, error) {
+	return sasl.NewPlainServer(func(identity, username, password string) error { return nil }), nil
+}
